@@ -168,6 +168,64 @@ def run(ctx: Ctx):
                     ctx.fail(cons + "#raise-after-send", g.loc(t), f"`{t.text(70)}` can raise "
                              f"({sorted(t.raises)}) after {f.qualname} has already sent its answer: "
                              f"the error handler of _receive_message sends a second (5012) answer")
+                else:
+                    # value faults: indexing into data taken from the received message (absent /
+                    # undecodable AVPs give None or short lists) after the answer went out
+                    derived = _message_derived(f)
+                    for t in after:
+                        if t.kind not in ("stmt", "test", "iter") or t.ast is None:
+                            continue
+                        if any(isinstance(x, ast.Try) and any(
+                                h.type is None or ast.unparse(h.type) in ("Exception", "BaseException")
+                                for h in x.handlers) for x in t.lexical):
+                            continue
+                        exprs = [t.ast.iter] if t.kind == "iter" else \
+                                [t.ast] if t.kind == "test" else [t.ast]
+                        bad = None
+                        for e_ in exprs:
+                            comp_vars = set()
+                            for x in ast.walk(e_):
+                                if isinstance(x, ast.comprehension) and _mentions(x.iter, derived):
+                                    comp_vars |= {y.id for y in ast.walk(x.target) if isinstance(y, ast.Name)}
+                            for x in ast.walk(e_):
+                                if isinstance(x, ast.Subscript) and isinstance(x.ctx, ast.Load) \
+                                        and not isinstance(x.slice, ast.Slice) \
+                                        and _mentions(x.value, derived | comp_vars):
+                                    bad = x
+                        if bad is not None and t.kind == "stmt" and isinstance(
+                                t.ast, (ast.Assign, ast.AugAssign, ast.AnnAssign, ast.Expr, ast.Return)):
+                            ctx.fail(cons + "#raise-after-send", g.loc(t), f"`{ast.unparse(bad)}` indexes "
+                                     f"data taken from the received message after {f.qualname} has "
+                                     f"already sent its answer: for a message whose AVP is absent or "
+                                     f"undecodable it raises, and the error handler of _receive_message "
+                                     f"sends a second (5012) answer for the same request")
+                            break
+    # the transmission point itself: once send_message has queued the message nothing in it may
+    # raise - the caller (an application inside handle_request, or a node handler) would take the
+    # exception for a failed send, and the error handler of _receive_message answers again
+    sm = nc.methods.get("send_message")
+    cons = "Node.send_message:nothing-raises-after-queueing"
+    ctx.inst(cons)
+    if sm is None:
+        ctx.error("Node.send_message not found")
+    else:
+        ctx.use(sm)
+        gs = cfg_of(sm, effects=E)
+        q = [n for n in gs.nodes if any(isinstance(c.func, ast.Attribute) and c.func.attr == "add_out_msg"
+                                       for c in n.calls())]
+        if len(q) != 1:
+            ctx.fail(cons, sm.loc(), f"send_message queues the message {len(q)} times")
+        else:
+            after = gs.reach([d for l, d in q[0].succ if l != "exc"])
+            esc = [t for t in after if t.raises and any(d is gs.raise_exit for l, d in t.succ
+                                                        if l in ("exc", "raise"))]
+            if esc:
+                t = esc[0]
+                why = E.why(sm, sorted(t.raises)[0])
+                ctx.fail(cons, gs.loc(t), f"`{t.text(70)}` can raise {sorted(t.raises)} after the message "
+                         f"has been queued for transmission: for an answer sent from handle_request "
+                         f"the exception reaches the error handler of _receive_message, which "
+                         f"transmits a second (5012) answer for the same request", steps=why)
     # in _receive_message itself: sends inside the try body would be followed by handler send
     g = R.g
     for s in R.sends:
@@ -245,6 +303,35 @@ def run(ctx: Ctx):
     ctx.include(c20.run, {"C20-R2"}, "C07-R7",
                 "an answer built from a request has the request bit cleared and mirrors its "
                 "identifiers (header flow of Message.to_answer)", floor=5)
+
+
+def _mentions(e: ast.AST, names: set) -> bool:
+    return any(isinstance(x, ast.Name) and x.id in names for x in ast.walk(e))
+
+
+def _message_derived(f) -> set:
+    """Locals of a handler whose value is computed from the received message parameter."""
+    params = [a.arg for a in f.node.args.args]
+    derived = {params[2]} if len(params) > 2 else set()
+    changed = True
+    while changed:
+        changed = False
+        for n in A.walk_no_nested(f.node):
+            tg, val = [], None
+            if isinstance(n, ast.Assign):
+                tg, val = n.targets, n.value
+            elif isinstance(n, ast.For):
+                tg, val = [n.target], n.iter
+            elif isinstance(n, ast.AnnAssign) and n.value is not None:
+                tg, val = [n.target], n.value
+            if val is None or not _mentions(val, derived):
+                continue
+            for t in tg:
+                for y in ast.walk(t):
+                    if isinstance(y, ast.Name) and isinstance(y.ctx, ast.Store) and y.id not in derived:
+                        derived.add(y.id)
+                        changed = True
+    return derived
 
 
 def _sends_answer(model, F, f, _memo={}) -> bool:
